@@ -41,6 +41,22 @@ def table():
         ("cast-unparsable-date", 'cast({x}, date)', "String", "2020-13-45", "2020-01-01"),
         ("cast-unparsable-period", 'cast({x}, time_period)', "String", "20Q9", "2020Q1"),
         ("cast-unparsable-boolean", 'cast({x}, boolean)', "String", "maybe", "true"),
+        # malformed period / date / interval spellings of every kind the parsers distinguish (impossible calendar date,
+        # non-numeric period number, non-numeric year, trailing garbage, empty string, blanks)
+        ("cast-period-impossible-date", 'cast({x}, time_period)', "String", "2021-02-30", "2020Q1"),
+        ("cast-period-nonnumeric-number", 'cast({x}, time_period)', "String", "2020-Qx", "2020Q1"),
+        ("cast-period-trailing-garbage", 'cast({x}, time_period)', "String", "2020-M1x", "2020Q1"),
+        ("cast-period-nonnumeric-year", 'cast({x}, time_period)', "String", "abcd", "2020Q1"),
+        ("cast-period-empty", 'cast({x}, time_period)', "String", "", "2020Q1"),
+        ("cast-period-blank", 'cast({x}, time_period)', "String", " ", "2020Q1"),
+        ("cast-date-nonnumeric", 'cast({x}, date)', "String", "abcd-ef-gh", "2020-01-01"),
+        ("cast-date-empty", 'cast({x}, date)', "String", "", "2020-01-01"),
+        ("cast-date-trailing-garbage", 'cast({x}, date)', "String", "2020-01-01x", "2020-01-01"),
+        ("cast-interval-impossible-date", 'cast({x}, time)', "String", "2020-01-01/2020-02-30", "2020-01-01/2020-12-31"),
+        ("cast-interval-no-separator", 'cast({x}, time)', "String", "2020-01-01", "2020-01-01/2020-12-31"),
+        ("cast-duration-unknown", 'cast({x}, duration)', "String", "Z", "A"),
+        ("cast-integer-empty", 'cast({x}, integer)', "String", "", "12"),
+        ("cast-number-blank", 'cast({x}, number)', "String", " ", "1.5"),
         ("substr-negative-start", 'substr({x}, -1, 2)', "String", "abc", "abc"),
         ("instr-zero-occurrence", 'instr({x}, "a", 1, 0)', "String", "abc", "abc"),
         ("match-invalid-regex", 'match_characters({x}, "[a-")', "String", "abc", "abc"),
